@@ -186,9 +186,18 @@ func vtextTo(sb *strings.Builder, v interface{}) {
 	case CompressionType:
 		fmt.Fprintf(sb, "i%d", int(x))
 	case float32:
-		fmt.Fprintf(sb, "F%08x", math.Float32bits(x))
+		// what msgpack's normalisation makes of it on the other side: the float64 with the same value
+		if x != x {
+			sb.WriteString("D7ff8000000000000")
+		} else {
+			fmt.Fprintf(sb, "D%016x", math.Float64bits(float64(x)))
+		}
 	case float64:
-		fmt.Fprintf(sb, "D%016x", math.Float64bits(x))
+		if x != x {
+			sb.WriteString("D7ff8000000000000") // one canonical NaN (payload bits are not preserved by conversions)
+		} else {
+			fmt.Fprintf(sb, "D%016x", math.Float64bits(x))
+		}
 	case string:
 		sb.WriteString("s" + hex.EncodeToString([]byte(x)))
 	case *string:
